@@ -21,7 +21,8 @@ RUN_TIMEOUT = 90
 RULE = ("world = seeded call history (<= 30 operations) on one SolverWrapper: add_variables (integer/continuous; scalar, dict and list "
         "bounds; ub = 0; non powers of two), linear rows, binary*continuous / integer*continuous product helpers, piecewise-constant "
         "helper, set_objective several times with min/max, queue_fix_variable, queue_set_var_lower_bound, fix_variable, optimize, "
-        "get_values on seeded subsets.  After every optimize(): column bounds == reference bounds (only the requested columns changed), "
+        "get_values on seeded subsets; on wrappers with the extra signal timeout one solve may overshoot its limit in simulated time (the virtual SIGALRM "
+        "fires, the status must read kTimeLimit) and the documented attributes time_limit / use_also_custom_timeout may be changed before the next optimize().  After every optimize(): column bounds == reference bounds (only the requested columns changed), "
         "cost vector and sense == last objective, status and optimum == brute force over the intended relations (p = b*c, p = i*c, "
         "y = constant of x's range) on the integer grid.  distinct = digest of the history; non-trivial = the history contains >= 1 helper "
         "relation, >= 1 queued or direct bound change and >= 2 optimize() calls.")
@@ -161,7 +162,22 @@ def gen_world(seed, tier):
     if rng.random() < 0.3:
         # a wrapper with a finite limit and the extra signal timeout: optimize() then takes the _run_with_timeout route
         wopts = {"time_limit": rng.choice([100, 3600]), "use_also_custom_timeout": rng.random() < 0.7}
-    return {"vars": vars_, "ops": ops, "relations": rel, "wrapper_options": wopts}
+    faults = []
+    if wopts.get("use_also_custom_timeout"):
+        # the documented wrapper attributes are part of its state: let the extra signal timeout fire during one
+        # optimize() (solver overshoots its limit in simulated time), then possibly lift the limit / switch the
+        # extra timeout off before the next optimize(); the status read afterwards must describe the last solve
+        r2 = random.Random(H(seed, "c12attr"))
+        opt_pos = [i for i, o in enumerate(ops) if o["op"] == "optimize"]
+        if r2.random() < 0.7 and len(opt_pos) >= 2:
+            e = r2.randrange(0, len(opt_pos) - 1)
+            faults.append({"at": e, "kind": "overshoot"})
+            choice = r2.choice(["inf", "off", "inf", "off", "keep"])
+            if choice != "keep":
+                at = r2.randint(opt_pos[e] + 1, opt_pos[e + 1])
+                ops.insert(at, {"op": "set_attr", "attr": "time_limit" if choice == "inf" else "use_also_custom_timeout",
+                                "value": "inf" if choice == "inf" else False})
+    return {"vars": vars_, "ops": ops, "relations": rel, "wrapper_options": wopts, "faults": faults}
 
 
 def plans(world, info, seed, tier):
@@ -233,7 +249,7 @@ def execute(spec):
     world = spec["world"]
     from flowpaths.utils import solverwrapper as sw
     import highspy
-    sim = W.SimWorld(1, {})
+    sim = W.SimWorld(1, {"faults": world.get("faults") or []})
     vs = []
     vars_ = world["vars"]
     counters = {}
@@ -302,6 +318,8 @@ def execute(spec):
                     for v, c in op["terms"]:
                         t[v] = t.get(v, 0) + c
                     obj = {"terms": t, "const": float(op.get("const", 0)), "sense": "min" if op["sense"] in ("minimize", "min") else "max"}
+                elif k == "set_attr":
+                    setattr(wr, op["attr"], float("inf") if op["value"] == "inf" else op["value"])
                 elif k == "queue_fix":
                     wr.queue_fix_variable(hv[op["v"]], op["val"])
                     pend_fix[op["v"]] = float(op["val"])
@@ -324,7 +342,9 @@ def execute(spec):
                         bounds[v][0] = val
                     pend_fix.clear()
                     pend_lb.clear()
+                    alarms0 = sim.fired.get("alarm_fired", 0)
                     wr.optimize()
+                    alarm_fired = sim.fired.get("alarm_fired", 0) > alarms0
                     noptimize += 1
                     lp = wr.solver.getLp()
                     lo, up = list(lp.col_lower_), list(lp.col_upper_)
@@ -355,7 +375,12 @@ def execute(spec):
                     status = wr.get_model_status()
                     last_status = status
                     est, ez = _brute(vars_, bounds, rels, lins, obj)
-                    if est != "unsupported":
+                    if alarm_fired:
+                        # the extra signal timeout fired during this solve: the flag overrides the status
+                        counters["custom_timeout_fired"] = counters.get("custom_timeout_fired", 0) + 1
+                        if status != "kTimeLimit":
+                            V("status_differs", {"got": status, "reference": "kTimeLimit (custom timeout fired)"}, i)
+                    elif est != "unsupported":
                         counters["bruteforce:" + est] = counters.get("bruteforce:" + est, 0) + 1
                         if status != est:
                             V("status_differs", {"got": status, "reference": est, "bounds": bounds}, i)
@@ -407,7 +432,7 @@ def execute(spec):
     return {"violations": uniq, "digest": digest([world["ops"], [v["clause"] for v in uniq], sim.history.digest()]),
             "sig": digest(world["ops"]),
             "nontrivial": bool(world["relations"]) and nbound > 0 and noptimize >= 2,
-            "fired": {}, "probes": {}, "sim_s": sim.sim_seconds, "invocations": len(sim.invocations),
+            "fired": {k: v for k, v in sim.fired.items() if v}, "probes": {}, "sim_s": sim.sim_seconds, "invocations": len(sim.invocations),
             "counters": counters, "summary": {"ops": len(world["ops"]), "optimize_calls": noptimize, "bound_changes": nbound}}
 
 
@@ -418,7 +443,16 @@ def sample_view(spec, outcome):
 def shrink(spec):
     ops = spec["world"]["ops"]
     for i in range(len(ops) - 1, -1, -1):
-        if ops[i]["op"] in ("lin", "queue_fix", "queue_lb", "fix", "objective", "get_values", "optimize"):
+        if ops[i]["op"] in ("lin", "queue_fix", "queue_lb", "fix", "objective", "get_values", "optimize", "set_attr"):
             c = copy.deepcopy(spec)
+            if ops[i]["op"] == "optimize":
+                # faults are addressed by solver-invocation index = number of earlier optimize() calls
+                n_before = sum(1 for o in ops[:i] if o["op"] == "optimize")
+                nf = []
+                for f in c["world"].get("faults") or []:
+                    if f["at"] == n_before:
+                        continue
+                    nf.append(dict(f, at=f["at"] - 1) if f["at"] > n_before else f)
+                c["world"]["faults"] = nf
             del c["world"]["ops"][i]
             yield c
